@@ -683,6 +683,63 @@ pub fn breaker(key: &Key, r: &mut Rng) -> Option<Key> {
         let x: syn::DeriveInput = syn::parse_str(&src).ok()?;
         x.attrs.into_iter().next()?
     };
+    // 0: a helper argument that exists somewhere in derive_more's vocabulary (valid, legacy or foreign to this
+    //    derive), attached at a random place — container, a variant, a field: the "valid word, wrong place"
+    //    and "old syntax" error paths
+    if r.chance(1, 2) {
+        const VOCAB: &[&str] = &[
+            "skip", "ignore", "forward", "owned", "ref", "ref_mut", "source", "backtrace", "not (source)", "not (backtrace)",
+            "bound (T : Clone)", "bounds (T : Clone)", "rename_all = \"snake_case\"", "rename_all = \"nope\"", "fmt = \"{}\"",
+            "fmt = \"{}\" , \"_0\"", "\"{}\"", "\"{}\" , _0", "\"{_0:?}\"", "types (i64)", "i64", "i64 , u8", "owned (i64)", "ref (i32) , owned",
+            "repr", "forward , skip", "skip , skip", "",
+        ];
+        let arg = *r.pick(VOCAB);
+        let src = format!("# [{name} ({arg})] struct X ;");
+        let attr = syn::parse_str::<syn::DeriveInput>(&src).ok().and_then(|x| x.attrs.into_iter().next());
+        if let Some(attr) = attr {
+            let place = r.below(3);
+            let mut put = false;
+            match (&mut di.data, place) {
+                (syn::Data::Struct(st), 1 | 2) => {
+                    let n = st.fields.len();
+                    if n > 0 {
+                        let i = r.below(n);
+                        st.fields.iter_mut().nth(i).unwrap().attrs.push(attr.clone());
+                        put = true;
+                    }
+                }
+                (syn::Data::Enum(e), 1) => {
+                    let n = e.variants.len();
+                    if n > 0 {
+                        let i = r.below(n);
+                        e.variants.iter_mut().nth(i).unwrap().attrs.push(attr.clone());
+                        put = true;
+                    }
+                }
+                (syn::Data::Enum(e), 2) => {
+                    let n = e.variants.len();
+                    if n > 0 {
+                        let i = r.below(n);
+                        let v = e.variants.iter_mut().nth(i).unwrap();
+                        let m = v.fields.len();
+                        if m > 0 {
+                            let j = r.below(m);
+                            v.fields.iter_mut().nth(j).unwrap().attrs.push(attr.clone());
+                            put = true;
+                        }
+                    }
+                }
+                _ => {}
+            }
+            if !put {
+                di.attrs.push(attr);
+            }
+            return Some(Key {
+                derive: key.derive.clone(),
+                item: di.to_token_stream().to_string(),
+            });
+        }
+    }
     let how = r.below(4);
     let mut changed = false;
     // 1: duplicate an existing helper attribute somewhere
